@@ -554,7 +554,11 @@ fn format_directive<'entry>(
         }
 
         FormatDirective::Type { follow_links } => if file_info.path_is_symlink() {
-            if *follow_links {
+            if *follow_links && file_info.follow() {
+                // %Y agrees with -xtype: where the follow mode already resolves
+                // links, it is the link itself that is examined.
+                'l'
+            } else if *follow_links {
                 match file_info.path().metadata().map_err(WalkError::from) {
                     Ok(meta) => format_non_link_file_type(meta.file_type().into()),
                     Err(e) if e.is_not_found() => 'N',
